@@ -247,6 +247,11 @@ func c02Func(i int, s fnSpec, specs []fnSpec) Stmt {
 			if k+1 < len(all) && k%2 == 0 {
 				body = append(body, Assign{Names: []string{v, all[k+1]}, Vals: []Expr{Var{all[k+1]}, Var{v}}})
 			}
+		case "swap-grouped":
+			// the same exchange with the values written as a group / through a pure call: still the OLD values
+			if k+1 < len(all) && k%2 == 0 {
+				body = append(body, Assign{Names: []string{v, all[k+1]}, Vals: []Expr{Group{X: Var{all[k+1]}}, Group{X: Var{v}}}})
+			}
 		case "multi":
 			if k+1 < len(all) && k%2 == 0 {
 				body = append(body, Assign{Names: []string{v, all[k+1]}, Vals: []Expr{Binary{Op: "+", L: Var{all[k+1]}, R: lit(1)}, lit(50 + i)}})
@@ -283,11 +288,11 @@ func c02Func(i int, s fnSpec, specs []fnSpec) Stmt {
 func c02Specs(idx int, prev []fnSpec, full bool) []fnSpec {
 	paramSets := [][]string{{}, {"x"}, {"x", "y"}, {"y", "x"}}
 	nrets := []int{0, 1, 2}
-	writes := []string{"=", "++", "swap", "multi", "redefine"}
+	writes := []string{"=", "++", "swap", "swap-grouped", "multi", "redefine"}
 	if full {
 		paramSets = [][]string{{}, {"x"}, {"y"}, {"x", "y"}, {"y", "x"}}
 		nrets = []int{0, 1, 2, 3}
-		writes = []string{"=", "+=", "++", "swap", "multi", "redefine"}
+		writes = []string{"=", "+=", "++", "swap", "swap-grouped", "multi", "redefine"}
 	}
 	var out []fnSpec
 	for _, ps := range paramSets {
@@ -443,7 +448,7 @@ func C02() int {
 	if r.Thorough() {
 		// three functions, call chain f3 -> f2 -> f1, reduced per-function domains
 		for _, s1 := range c02Specs(0, nil, false) {
-			if s1.locals || s1.write == "swap" {
+			if s1.locals || s1.write == "swap" || s1.write == "swap-grouped" {
 				continue
 			}
 			for _, s2 := range c02Specs(1, []fnSpec{s1}, false) {
